@@ -1019,6 +1019,8 @@ class Interp:
                 if lo >= -len(v) and hi < len(v):
                     from .absval import Sel
                     return Sel(list(v), idx)
+            if idx is None or isinstance(idx, (float, str, list, tuple, dict, _Fraction)):
+                raise RaiseEx("TypeError", node)  # list indices must be integers or slices
             return Opaque("index", [v, idx])
         if isinstance(v, str):
             v = AbsStr([v])
